@@ -15,7 +15,16 @@ def main(q, tier, out, procs):
     from pyvc.solve import discharge, retry_unknown
     eng = Engine()
     timeout = 15000 if tier == "quick" else 60000
-    eng.verify(q)
+    try:
+        eng.verify(q)
+    except Exception as ex:  # noqa
+        # The generator met code it cannot process (a construct its tables do not know makes an internal lookup fail): the
+        # function's obligations are undecided, exactly as for a construct it knows to be outside the subset.
+        import traceback
+        where = traceback.extract_tb(ex.__traceback__)[-1]
+        eng.obligations.clear()
+        eng.undecided.append((q, f"unsupported[-]: the generator cannot process this body ({type(ex).__name__}: {str(ex)[:80]} at "
+                                 f"{where.filename.rsplit('/', 1)[-1]}:{where.lineno})"))
     res = discharge(eng.obligations, timeout, procs=procs, cross_check=(tier == "thorough"))
     retry_unknown(eng.obligations, res, timeout * 4)
     recs = []
